@@ -10,7 +10,7 @@ git -C /repo worktree add -q "$W" HEAD || exit 2
 trap 'git -C /repo worktree remove --force "$W" >/dev/null 2>&1' EXIT
 sh "$S/run_demo.sh" "$W" >/tmp/r6v/demo_clean.$$ 2>&1; c1=$?
 git -C "$W" apply "$S/patch.diff" || { echo "CONFIRM: patch does not apply"; exit 2; }
-/tmp/r10/runtests.sh "$W" | tail -3
+/verif/tools/seed_runtests.sh "$W" | tail -3
 sh "$S/run_demo.sh" "$W" >/tmp/r6v/demo_patched.$$ 2>&1; c2=$?
 echo "CONFIRM: demo on clean tree exit=$c1 (want 0); with patch exit=$c2 (want non-zero)"
 git -C "$W" status --short | head -5
